@@ -46,6 +46,8 @@ fn rows_of(case: &WorldCase, iq: Arc<IndexedQuery>) -> String {
         ExecOutcome::Rows(r) => format!("{r:?}"),
         ExecOutcome::ArgError(e) => format!("argerr:{e}"),
         ExecOutcome::Panic(p, n) => format!("panic:{} after {n} rows", p.message),
+        // deterministic per query (the work counter belongs to this adapter instance), so it compares like any result
+        ExecOutcome::Budget => "work-budget-exhausted".to_string(),
     }
 }
 
@@ -88,13 +90,20 @@ fn run_worker(seed: u64, index: u64, batches: usize) -> WorkerOut {
     let mut out = WorkerOut { batches: 0, nontrivial: vec![], labels: BTreeMap::new(), mismatch: None };
     let label = |out: &mut WorkerOut, l: &str| *out.labels.entry(l.to_string()).or_insert(0) += 1;
 
+    let mut regex_cfg = default_gen_config();
+    regex_cfg.query.regex_bias = true;
     for b in 0..batches {
+        // every third batch is biased towards regex filters with tag operands: those are compiled at run time, per value
+        let batch_cfg = if b % 3 == 1 { &regex_cfg } else { &cfg };
         let jobs: Vec<WorldCase> = (0..JOBS_PER_BATCH)
             .map(|_| {
                 let bytes = strategy.new_tree(&mut runner).expect("generate").current();
-                decode_world_case(&mut Choices::new(&bytes), &cfg)
+                decode_world_case(&mut Choices::new(&bytes), batch_cfg)
             })
             .collect();
+        if jobs.iter().any(|j| j.query_text.contains("regex\", value: [\"%")) {
+            label(&mut out, "batch_with_a_tagged_regex_filter");
+        }
         // thread count from the generated stream too (first job's vertex count is as good a source as any
         // and keeps the run a pure function of the seed)
         let n_threads = 2 + ((jobs[0].world.data.vertices.len() + b) % 15);
